@@ -97,7 +97,7 @@ package netpoll
 //@   note the loser of the initialisation CAS spins until the winner publishes; the spin is cut by assuming it is not observed (termination not proved)
 //@   threadlocal !runFailed
 //@   ensures !runFailed ==> result != nil && prun[result#val]
-//@   modifies anything
+//@   modifies world, runFailed
 //@   ghost after call (*manager).Run#1: runFailed = result != nil
 //@   loop 1 invariant mbase(m) && (m.status == 2 ==> mgood(m)) && !runFailed
 
@@ -407,21 +407,23 @@ package netpoll
 //@ func (*operatorCache).alloc
 //@   property C10
 //@   requires !c.ocl
-//@   ensures !c.ocl && result != nil && result.cacheof == c && result.slot == 1 && result.owned && result.detached == 0
+//@   ensures !c.ocl && result != nil && result.cacheof == c && result.slot == 1 && result.owned && result.detached == 0 && !result.opheld
 //@   ensures forall o *FDOperator :: o != result && wasalloc(o) ==> o.slot == old(o.slot) && o.cacheof == old(o.cacheof) && o.owned == old(o.owned)
+//@   ensures wasalloc(result) ==> !old(result.owned)
 //@   modifies c.first, c.cache, c.locked, c.ocl, FDOperator.slot, FDOperator.rank, FDOperator.cacheof, FDOperator.next, FDOperator.owned, mem:*FDOperator, ocBase
 //@   loop 1 invariant c.ocl && ocL(c) && index == len(c.cache) && len(c.cache) == ocBase + i && ocBase < 2000000000 && i <= 4096 && (i > 0 ==> c.first != nil)
 //@   note the slot index is an int32: fewer than 2^31 slots are ever created
 //@   ghost after call lock#1: assume len(c.cache) < 2000000000; ocBase = len(c.cache)
 //@   loop 1 invariant forall o *FDOperator :: wasalloc(o) ==> o.slot == old(o.slot) && o.cacheof == old(o.cacheof) && o.owned == old(o.owned)
 //@   ghost after store next#1: pd.cacheof = c; pd.slot = 0; pd.rank = ite(pd.next == nil, 1, pd.next.rank + 1)
-//@   ghost before call unlock#1: assert op.slot == 0 && !op.owned; op.slot = 1; op.owned = true
+//@   note the calling goroutine cannot be holding the do() token of a slot that sits on the free list
+//@   ghost before call unlock#1: assert op.slot == 0 && !op.owned; assume !op.opheld; op.slot = 1; op.owned = true
 
 //@ func (*defaultPoll).Alloc
 //@   property C10
 //@   implements Poll.Alloc
 //@   ghost at entry: assume p.opcache != nil && !p.opcache.ocl
-//@   modifies FDOperator.owned, operatorCache.first, operatorCache.cache, operatorCache.locked, operatorCache.ocl, FDOperator.slot, FDOperator.rank, FDOperator.cacheof, FDOperator.next, FDOperator.poll, mem:*FDOperator
+//@   modifies FDOperator.owned, operatorCache.first, operatorCache.cache, operatorCache.locked, operatorCache.ocl, FDOperator.slot, FDOperator.rank, FDOperator.cacheof, FDOperator.next, FDOperator.poll, mem:*FDOperator, ocBase
 
 // freeable: waits for the do()/done() token, resets the slot and queues it; the slot does not go back to the free list here
 //@ func (*operatorCache).freeable
